@@ -49,6 +49,7 @@ var (
 	regMode   string // ok | failcode | error
 	nextBID   int64
 	failUser  bool
+	userBool  bool
 	patchOnce sync.Once
 	proxies   []*tcc.TCCServiceProxy
 	names     = []string{"actAlpha", "actBeta", "actTagged"}
@@ -84,12 +85,13 @@ func phase2(name, method string, ctx context.Context, bac *tm.BusinessActionCont
 	}
 	record(e)
 	mu.Lock()
-	f := failUser
+	f, b := failUser, userBool
 	mu.Unlock()
+	// every combination of the two results: the status must depend on the error only
 	if f {
-		return false, errors.New("user " + method + " failed")
+		return b, errors.New("user " + method + " failed")
 	}
-	return true, nil
+	return b, nil
 }
 
 func (s *svc) Commit(ctx context.Context, bac *tm.BusinessActionContext) (bool, error) {
@@ -193,6 +195,10 @@ type PrepareCase struct {
 	Detail   string  `json:"detail,omitempty"`
 	Oracle   string  `json:"oracle"`
 	Volatile bool    `json:"volatile_ok"` // action-start-time / host-name present and well-typed
+	Seq      int     `json:"seq"`         // prepares with the same seq share ONE seata context (one global transaction)
+	Pos      int     `json:"pos"`         // position in that sequence
+	// same-named parameter types (reflect.Type.String() equal, types distinct) prepared earlier in this process
+	Before []string `json:"before,omitempty"`
 }
 
 type Phase2Case struct {
@@ -207,6 +213,7 @@ type Phase2Case struct {
 	Captured  []Field `json:"captured,omitempty"` // the parameter fields of the prepare whose data is replayed
 	CapAction string  `json:"cap_action,omitempty"`
 	UserFails bool    `json:"user_fails"`
+	UserBool  bool    `json:"user_bool"` // the bool the user method returns next to its error
 	BType     int     `json:"btype"`
 	Events    []Event `json:"events"`
 	Outcome   string  `json:"outcome"`
@@ -222,16 +229,22 @@ func take() []Event {
 	return e
 }
 
-func runPrepare(c *PrepareCase, param interface{}) {
+// newTxContext: the context of one (possibly absent) global transaction; a business method calls the
+// Prepare of one or several TCC actions - or of the same action several times - with it
+func newTxContext(inGtx bool, xid string) context.Context {
+	ctx := tm.InitSeataContext(context.Background())
+	if inGtx {
+		tm.SetXID(ctx, xid)
+	}
+	return ctx
+}
+
+func runPrepare(ctx context.Context, c *PrepareCase, param interface{}) {
 	take()
 	mu.Lock()
 	regMode = c.RegMode
 	c.BID = nextBID + 1
 	mu.Unlock()
-	ctx := tm.InitSeataContext(context.Background())
-	if c.InGtx {
-		tm.SetXID(ctx, c.Xid)
-	}
 	c.Outcome, c.Detail = hutil.Guard(120*time.Second, func() error {
 		_, err := proxies[c.Action].Prepare(ctx, param)
 		return err
@@ -302,7 +315,7 @@ func oraclePrepare(c *PrepareCase) string {
 func runPhase2(c *Phase2Case) {
 	take()
 	mu.Lock()
-	failUser = c.UserFails
+	failUser, userBool = c.UserFails, c.UserBool
 	mu.Unlock()
 	data, _ := hex.DecodeString(c.AppData)
 	end := message.AbstractBranchEndRequest{Xid: c.Xid, BranchId: c.Branch, BranchType: branch.BranchType(c.BType),
@@ -411,7 +424,7 @@ func oraclePhase2(c *Phase2Case) string {
 		return "response does not echo the request's id / xid / branch / kind"
 	}
 	if !c.UserFails && r.Status != okStatus {
-		return fmt.Sprintf("user method succeeded but status %d reported", r.Status)
+		return fmt.Sprintf("user method returned (%v, nil) - no error - but status %d reported (want %d)", c.UserBool, r.Status, okStatus)
 	}
 	if c.UserFails && r.Status != retry {
 		return fmt.Sprintf("user method failed but status %d reported (want retryable failure %d)", r.Status, retry)
